@@ -564,7 +564,7 @@ func monC19(c *child.Ctx, replay json.RawMessage) {
 		return
 	}
 	r := ref.NewRand(c.Seed*694847539 + uint64(c.Batch)*715225741 + 19)
-	ns := c.Share(c.Pick(25, 1000))
+	ns := c.Share(c.Pick(40, 1500))
 	for i := 0; i < ns; i++ {
 		k := proxyCase{ID: c.Batch*10000 + i, Kind: "session", Chunk: []int{0, 1, 17, 512, 4096}[r.Intn(5)], GapUs: []int{0, 200, 2000}[r.Intn(3)], Seed: r.Uint64() >> 1}
 		nconn := r.Range(1, 3)
@@ -583,7 +583,7 @@ func monC19(c *child.Ctx, replay json.RawMessage) {
 			c.Sample(map[string]interface{}{"kind": "session", "connections": nconn, "chunk": k.Chunk, "gap_us": k.GapUs, "client_bytes_first_connection": len(k.Conns[0]) / 2})
 		}
 	}
-	nst := c.Share(c.Pick(500, 50000))
+	nst := c.Share(c.Pick(2000, 100000))
 	// Status writes a short note to stderr on every call; keep the child's log small
 	devnull, _ := os.OpenFile(os.DevNull, os.O_WRONLY, 0)
 	saved := os.Stderr
